@@ -158,6 +158,11 @@ class Gen:
             op.update(m="TimeDiff", v={"t": "time", "i": str(r.choice(TIMES))}, v2={"t": "time", "i": str(r.choice(TIMES))})
         elif k in ("Interface", "Any"):
             v = self.any_value(scalar_only=not keyed)
+            if keyed and r.random() < 0.12:
+                # a json.RawMessage spread over several lines, through Interface / Any: the marshal function compacts it (the
+                # verbatim paths - RawJSON, a RawMessage in Fields - are the caller's responsibility and keep single-line values)
+                v = {"t": "raw", "s": b64(r.choice([b'{\n  "a": [1,\n 2]\n}', b'[\n1,\r\n{"b":\tnull}\n]']))}
+                self.opaque.append(kname)
             if v["t"] in ("struct", "map", "slice"):
                 self.opaque.append(kname)
             op.update(m=k, v=v)
@@ -441,6 +446,8 @@ class Gen:
             st["errMarshal"] = "string"
         if r.random() < 0.2:
             st["levelMarshal"] = r.choice(["tag", "dropinfo"])
+        if r.random() < 0.15:
+            st["ifaceMarshal"] = "sprint"
         needs_stack = bool(needs)
         if needs:
             st["stackMarshal"] = needs.pop()
